@@ -495,9 +495,7 @@ def judge_cpu_guard(ctx, case):
 
 def judge_process(ctx, case):
     """The real command-line entry points in their own interpreter: exit status and stderr must show no traceback."""
-    import subprocess
-    import sys
-    from .. import env
+    from .. import env, cpuguard
     k = case['base']
     rng = ctx.rng_global('proc', k)
     enc = ('latin_1', 'cp500')[k % 2]
@@ -527,10 +525,13 @@ def judge_process(ctx, case):
     ]
     ctx.case_done(['process', k])
     for name, args in runs:
-        try:
-            p = subprocess.run([env.PYTHON, '-B'] + args, capture_output=True, text=True, env=e, timeout=120, cwd=ctx.tmpdir)
-        except subprocess.TimeoutExpired:
-            ctx.violation('process:%s:did_not_terminate_in_120s' % name, {'case': case, 'how': how})
+        # "stops": decided on the CPU time the command uses (60 s allowed, it needs well under one), never on wall-clock time
+        status, p = cpuguard.run([env.PYTHON, '-B'] + args, env=e, cwd=ctx.tmpdir, cpu_seconds=60)
+        if status == 'cpu':
+            ctx.violation('process:%s:cpu_allowance_used_up' % name, {'case': case, 'how': how, 'cpu_seconds': 60})
+            continue
+        if status == 'wall':
+            ctx.inconclusive_because('command-line process hit the wall-clock watchdog: ' + name)
             continue
         ctx.count('command-line processes run: ' + name)
         ctx.count('command-line exit status %d: %s' % (p.returncode, name))
